@@ -55,7 +55,9 @@ FILE_ATTRS = [("default", 0, 0), ("dos-directory-bit", 0, 0x10), ("dos-directory
               ("all-attribute-bits", 0, 0xFFFFFFFF), ("ntfs-directory-bit", 10, 0x10), ("dos-archive-bit", 0, 0x20)]
 DIR_ATTRS = [("default", 0, 0x10), ("no-attribute", 0, 0), ("unix-S_IFDIR-mode", 3, 0o040755 << 16 | 0x10)]
 # general-purpose flag bits of the record (also advisory for the guard: the central directory's sizes are definitive whatever bit 3 says)
-FILE_FLAGS = {"data-descriptor-flag": 0x08, "data-descriptor+compression-option-flags": 0x0E, "data-descriptor+masked-header-flags": 0x2008}
+FILE_FLAGS = {"data-descriptor-flag": 0x08, "data-descriptor+compression-option-flags": 0x0E, "data-descriptor+masked-header-flags": 0x2008,
+              # bit 0 ("encrypted"): who answers first is part of the statement - a container over a limit is rejected with the zip-bomb error
+              "encrypted-flag": 0x01, "encrypted+data-descriptor-flags": 0x09}
 FILE_ATTRS += [(lab, 0, 0) for lab in FILE_FLAGS]
 ATTR_BY_LABEL = {a[0]: a for a in FILE_ATTRS}
 
@@ -741,7 +743,8 @@ def eval_extract(run, case, obs, per):
             if v.get("attr") and attr_feature(v["attr"]) == "file-entry-carries-directory-attribute":
                 st["bombs_rejected_although_member_carries_directory_attribute"] = st.get("bombs_rejected_although_member_carries_directory_attribute", 0) + 1
         else:
-            run.violation(f"C11:{ext}:{feature}:not-rejected-as-zip-bomb",
+            # the statement names the error: accepted, or turned away with an error of another class (e.g. "encrypted", "corrupt"), both miss it
+            run.violation(f"C11:{ext}:{feature}:" + ("not-rejected-as-zip-bomb" if out == "ok" else "other-error-instead-of-zip-bomb-error"),
                           f"{case.get('fixture')} variant={v}: central directory exceeds the configured limits {lim} (margins {margins(entries, lim)}) but the extractor ended with {out}: {obs['detail']}", rep)
     elif ref == {False} and out == "bomb":
         run.violation(f"C11:{ext}:{feature}:rejected-as-zip-bomb-within-limits",
@@ -868,6 +871,7 @@ VARIANTS_QUICK = [
     {"name": "single", "d": 1, "attr": "dos-directory-bit"}, {"name": "zero", "front": 1, "attr": "unix-S_IFDIR-mode"},
     {"name": "real-entry-ratio", "attr": "dos-directory+readonly+archive-bits"}, {"name": "pad", "attr": "dos-directory-bit"},
     {"name": "zero", "attr": "data-descriptor-flag"}, {"name": "eratio", "d": 1, "attr": "data-descriptor+compression-option-flags"},
+    {"name": "real-entry-ratio", "attr": "encrypted-flag"}, {"name": "zero", "front": 1, "attr": "encrypted+data-descriptor-flags"}, {"name": "single", "d": 1, "attr": "encrypted-flag"},
 ]
 VARIANTS_ATTR = [{"name": nm, "d": 1, "attr": a[0]} for nm in ("single", "total", "eratio", "tratio", "zero") for a in FILE_ATTRS[1:]] + \
                 [{"name": nm, "attr": a[0]} for nm in ("real-entry-ratio", "real-total-ratio", "pad") for a in FILE_ATTRS[1:]]
